@@ -248,7 +248,7 @@ Ltac u16_shape pk c b p K fuel :=
 Theorem code_Utf16Parse : forall fuel dst src, (length src < fuel)%nat ->
   g_Utf16Parse fuel dst src = mmap (parse_res dst) (lift (utf16_parse (length dst) src)).
 Proof.
-  intros fuel dst src Hf. unfold g_Utf16Parse. set (K1 := g_parseUint). repeat autounfold with go2v. subst K1. step_code.
+  intros fuel dst src Hf. unfold g_Utf16Parse. repeat autounfold with go2v_aux. step_code.
   unfold utf16_parse.
   rewrite <- (uparse_fuel (length dst) src fuel (S (length src)) 0 0 [] ltac:(lia) ltac:(lia)).
   match goal with |- match while _ ?c ?b ?p ?s0 with Ret a => @?K a | Panic => Panic | NoFuel => NoFuel end = _ =>
